@@ -151,8 +151,12 @@ def build_class(case, sm_mod, log, clock, scripts_abs):
             st = dict(st, **decoy)
             st["kind"] = "timed" if st["timed"] else "state"
         ps = st["params"]
-        src = "def %s(self%s):\n    self._sm_call(%d, dict(%s))\n" % (
-            sname(i), "".join(", " + p for p in ps), i, ", ".join("%s=%s" % (p, p) for p in ps))
+        sig = ["self"] + list(ps)
+        slash = st.get("slash")
+        if slash is not None and 1 <= slash <= len(sig):
+            sig.insert(slash, "/")          # positional-only parameters: def s(self, tm, /, state_tm)
+        src = "def %s(%s):\n    self._sm_call(%d, dict(%s))\n" % (
+            sname(i), ", ".join(sig), i, ", ".join("%s=%s" % (p, p) for p in ps))
         ns = {}
         exec(src, ns)
         f = ns[sname(i)]
@@ -181,7 +185,7 @@ def build_class(case, sm_mod, log, clock, scripts_abs):
         for a in acts:
             if a[0] == "next":
                 out.append(["next", a[1]])
-                self.next_state(sname(a[1]))
+                self.next_state(getattr(type(self), sname(a[1])) if case.get("objrefs") else sname(a[1]))
             elif a[0] == "done":
                 out.append(["done"])
                 self.done()
@@ -189,7 +193,7 @@ def build_class(case, sm_mod, log, clock, scripts_abs):
                 clock.t += a[2]
                 out.append(["now", a[1], clock.t])
                 self._log.append(["now"])
-                self.next_state_now(sname(a[1]))
+                self.next_state_now(getattr(type(self), sname(a[1])) if case.get("objrefs") else sname(a[1]))
         self._depth -= 1
         if not self._quiet:
             scripts_abs[k] = out
@@ -289,7 +293,8 @@ def run_impl(case, tag="x"):
             if op[0] == "engage":
                 kw = {}
                 if op[1] is not None:
-                    kw["initial_state"] = sname(op[1])
+                    # a state may be named or given as the state object itself
+                    kw["initial_state"] = getattr(type(m), sname(op[1])) if case.get("objrefs") else sname(op[1])
                 if op[2]:
                     kw["force"] = True
                 m.engage(**kw)
@@ -485,6 +490,8 @@ def oracle(case, obs):
         errs = [e for e in evs if e[0] == "err"]
         if errs:
             out.append(("C01", "op %d %r: exception %s escaped" % (opi, op, errs[0][1])))
+            if errs[0][1] == "TypeError":
+                out.append(("C03", "op %d %r: TypeError escaped: a state function could not be called with the parameters it declares" % (opi, op)))
             break
         # ---- usage contract: stop judging once the history leaves it
         off = False
@@ -618,6 +625,7 @@ def oracle(case, obs):
         if prev_exec and not is_exec and ndone == 0:
             out.append(("C04", "op %d %r: the machine stopped without done() being invoked" % (opi, op)))
         if kind in ("done", "ondisable", "adisable"):
+            dflt_fresh = True        # the machine is stopped through done(): the default state is entered anew afterwards
             if (is_exec or cur is not None) and not offc:
                 out.append(("C04", "op %d %r: after done()/on_disable() is_executing=%s current_state=%r" % (opi, op, is_exec, cur)))
             has_state = False
@@ -692,12 +700,16 @@ def oracle_auto(case, obs):
 def oracle_chain(case, obs):
     """C02 on quiet, continuously engaged, plain machines: an independent reference of the
     property (entries on the expiry grid, one hand-over per iteration)."""
-    if case["auto"] or case["default"] is not None:
+    if case["default"] is not None:
         return []
     if any(acts for acts in case["scripts"]):
         return []
     h = case["hist"]
-    if not h or any(op[0] not in ("engage", "execute", "setdur") for op in h):
+    auto = bool(case["auto"])
+    if auto:
+        if not h or h[0][0] != "aenable" or any(op[0] not in ("aiter", "setdur") for op in h[1:]) or case["default"] is not None:
+            return []
+    elif not h or any(op[0] not in ("engage", "execute", "setdur") for op in h):
         return []
     st = case["states"]
     dur = {int(k): v["dur"] for k, v in st.items()}
@@ -709,10 +721,24 @@ def oracle_chain(case, obs):
     entry = exp = 0
     requested = False
     engaged = False
+    stopped = False
     for opi, (op, (evs, is_exec, c)) in enumerate(zip(h, obs)):
         if op[0] == "setdur":
             dur[op[1]] = op[2]
             continue
+        if op[0] == "aenable":
+            continue
+        if op[0] == "aiter":
+            if stopped:
+                if [e for e in evs if e[0] == "call"] or is_exec:
+                    out.append(("C13", "op %d %r: the last timed state has expired (the autonomous machine has run to completion), yet "
+                                       "on_iteration ran %r / is_executing=%s" % (opi, op, [e for e in evs if e[0] == "call"][:2], is_exec)))
+                    return out
+                continue
+            requested = True
+            if cur is None:
+                cur = case["first"]
+                ran = False
         if op[0] == "engage":
             if op[1] is not None or op[2]:
                 return out
@@ -733,6 +759,15 @@ def oracle_chain(case, obs):
         if ran and st[str(cur)]["timed"] and exp < tm:
             nxt = st[str(cur)]["next"]
             nss = exp
+            if nxt is None and auto:
+                # the autonomous machine runs to completion once: nothing runs from here on
+                stopped = True
+                if [e for e in evs if e[0] == "call"] or is_exec:
+                    out.append(("C13", "op %d %r: the last timed state s%d (entered at machine time %d, expiry %d) has expired at tm %d: no state "
+                                       "function may run and is_executing must be False, but %r ran / is_executing=%s" % (
+                                           opi, op, cur, entry, exp, tm, [e for e in evs if e[0] == "call"][:2], is_exec)))
+                    return out
+                continue
             if nxt is None:
                 wrapped = True
                 origin += exp
@@ -759,6 +794,9 @@ def oracle_chain(case, obs):
             if g is not None and g != w:
                 out.append(("C02", "op %d %r: quiet continuously engaged chain: %s is %r, the duration grid requires %r "
                                    "(state s%d entered at machine time %d, expiry %d)" % (opi, op, nm, g, w, cur, entry, exp)))
+                if auto:
+                    out.append(("C13", "op %d %r: autonomous machine driven by on_iteration(): %s is %r, running it as if engage() preceded every "
+                                       "iteration requires %r (state s%d entered at machine time %d, expiry %d)" % (opi, op, nm, g, w, cur, entry, exp)))
                 if wrapped:
                     msg = ("op %d %r: the last timed state expired while engage() is still called: the machine starts over at the first "
                            "state s%d at the expiry instant, so %s must be %r, it is %r" % (opi, op, cur, nm, w, g))
@@ -775,7 +813,7 @@ PROFILE = {
     "C02": dict(auto=0.1, profiles=["continuous", "continuous", "chain", "chain", "gapped"]),
     "C03": dict(auto=0.2, profiles=["continuous", "gapped", "chaotic", "chain"]),
     "C04": dict(auto=0.1, profiles=["chaotic", "lazy", "gapped", "continuous", "chain"]),
-    "C13": dict(auto=1.0, profiles=["continuous"]),
+    "C13": dict(auto=1.0, profiles=["continuous", "continuous", "chain"]),
 }
 
 
@@ -784,7 +822,7 @@ def gen_for(pid, r):
     auto = r.random() < pr["auto"]
     prof = r.choice(pr["profiles"])
     if prof == "chain":
-        return decorate(gen_chain(r), r)
+        return decorate(gen_chain(r, auto=(pid == "C13")), r)
     return decorate(gen_case(r, auto=auto, profile=prof), r)
 
 
@@ -798,6 +836,11 @@ def decorate(case, r):
              has its own bookkeeping."""
     n = case["n"]
     st = case["states"]
+    for i in range(n):
+        if r.random() < 0.2:
+            st[str(i)]["slash"] = r.randrange(1, len(st[str(i)]["params"]) + 2)
+    if r.random() < 0.3:
+        case["objrefs"] = True
     if r.random() < 0.25:
         cand = [i for i in range(n) if st[str(i)]["kind"] != "default"]
         r.shuffle(cand)
@@ -833,8 +876,9 @@ def decorate(case, r):
     return case
 
 
-def gen_chain(r):
-    """Timed chains / cycles, quiet bodies, continuous engagement, arbitrary loop periods."""
+def gen_chain(r, auto=False):
+    """Timed chains / cycles, quiet bodies, continuous engagement, arbitrary loop periods.
+    auto: the same machine as an AutonomousStateMachine driven by on_enable(); on_iteration()* (no explicit engage)."""
     n = r.choice([1, 2, 2, 3, 3, 4])
     order = list(range(n))
     r.shuffle(order)
@@ -852,14 +896,19 @@ def gen_chain(r):
     t = r.choice([0, 5, 64, 1000])
     stepset = r.choice([[1], [1, 2, 3], [0, 1, 2, 3, 5, 8], [5, 8, 13], [8, 40, 400], [1, 1, 1, 40]])
     timed_ids = [i for i in range(n) if states[i]["timed"]]
+    if auto:
+        hist.append(["aenable"])
     for _ in range(r.randrange(10, 45)):
         if r.random() < 0.05 and timed_ids:
             hist.append(["setdur", r.choice(timed_ids), r.choice([0, 1, 2, 4, 8, 16])])
-        hist.append(["engage", None, False])
         t += r.choice(stepset)
-        hist.append(["execute", t])
+        if auto:
+            hist.append(["aiter", t])
+        else:
+            hist.append(["engage", None, False])
+            hist.append(["execute", t])
     return dict(n=n, first=order[0], default=None, states={str(k): v for k, v in states.items()},
-                auto=False, split=n, scripts=[[] for _ in range(4)], hist=hist)
+                auto=auto, split=n, scripts=[[] for _ in range(4)], hist=hist)
 
 
 def small_scope(pid, max_len):
